@@ -251,6 +251,75 @@ func main() {
 		}
 		emit("hashseq", strings.Join(args, " "), strings.Join(res, ","), kvfmt.Set(feat))
 	}
+	// Hash and ReferenceHash with a caller-supplied Hasher (the same FNV-1a function, so the
+	// reference results apply): one instance used for a whole sequence of keyed messages, then
+	// by several goroutines at once — the result must stay a function of the key alone.
+	for i := 0; i < *count/8+2; i++ {
+		hh := &kafka.Hash{Hasher: fnv.New32a()}
+		rh := &kafka.ReferenceHash{Hasher: fnv.New32a()}
+		var args, res []string
+		feat := map[string]bool{"custom-hasher": true}
+		steps := 2 + r.Intn(7)
+		for s := 0; s < steps; s++ {
+			k := genKey(r)
+			if k == nil {
+				k = []byte{}
+			}
+			n := genN(r)
+			p := hh.Balance(kafka.Message{Key: k}, offered(n)...)
+			args = append(args, fmt.Sprintf("%x:%s", n, kvfmt.OptBytes(k)))
+			res = append(res, kvfmt.I(int64(p)))
+			feat[keyFeat(k)] = true
+			feat[nFeat(n)] = true
+			k2 := genKey(r)
+			if k2 == nil {
+				k2 = []byte{}
+			}
+			n2 := genN(r)
+			p2 := rh.Balance(kafka.Message{Key: k2}, offered(n2)...)
+			emit("ref", fmt.Sprintf("%x %s", n2, kvfmt.OptBytes(k2)), kvfmt.I(int64(p2)), keyFeat(k2)+","+nFeat(n2)+fmt.Sprintf(",custom-hasher,call=%d", s))
+		}
+		emit("hashseq", strings.Join(args, " "), strings.Join(res, ","), kvfmt.Set(feat))
+	}
+	for round := 0; round < 3; round++ {
+		hh := &kafka.Hash{Hasher: fnv.New32a()}
+		rh := &kafka.ReferenceHash{Hasher: fnv.New32a()}
+		const g, per = 8, 40
+		type one struct {
+			n    int
+			k    []byte
+			p, q int
+		}
+		work := make([][]one, g)
+		for t := 0; t < g; t++ {
+			for c := 0; c < per; c++ {
+				k := genKey(r)
+				if k == nil {
+					k = []byte{}
+				}
+				work[t] = append(work[t], one{n: genN(r), k: k})
+			}
+		}
+		var wg sync.WaitGroup
+		for t := 0; t < g; t++ {
+			wg.Add(1)
+			go func(t int) {
+				defer wg.Done()
+				for c := range work[t] {
+					w := &work[t][c]
+					w.p = hh.Balance(kafka.Message{Key: w.k}, offered(w.n)...)
+					w.q = rh.Balance(kafka.Message{Key: w.k}, offered(w.n)...)
+				}
+			}(t)
+		}
+		wg.Wait()
+		for t := 0; t < g; t++ {
+			for _, w := range work[t] {
+				emit("hashseq", fmt.Sprintf("%x:%s", w.n, kvfmt.OptBytes(w.k)), kvfmt.I(int64(w.p)), keyFeat(w.k)+","+nFeat(w.n)+",custom-hasher,concurrent")
+				emit("ref", fmt.Sprintf("%x %s", w.n, kvfmt.OptBytes(w.k)), kvfmt.I(int64(w.q)), keyFeat(w.k)+","+nFeat(w.n)+",custom-hasher,concurrent")
+			}
+		}
+	}
 	// ReferenceHash
 	for i := 0; i < *count; i++ {
 		k := genKey(r)
@@ -404,5 +473,56 @@ func main() {
 		emit("rrconc", fmt.Sprintf("%x %x %x", chunk, n, g*per), kvfmt.Ints(cntRR), fmt.Sprintf("g=%d", g))
 		sort.Ints(cntLB) // which partitions carry the remainder depends on the interleaving
 		emit("lbconc", fmt.Sprintf("%x %x %x", 10, n, g*per), kvfmt.Ints(cntLB), fmt.Sprintf("g=%d", g))
+	}
+	// The list the Writer offers to its balancer (writer.go loadCachedPartitions): it must be
+	// 0..n-1 for every caller, also while another caller grows the process-wide cache.  The
+	// counts grow from call to call so that every round contains growth events.
+	{
+		const g = 8
+		base := 1
+		for round := 0; round < *count/100+6; round++ {
+			var wg sync.WaitGroup
+			bad := make([]string, g)
+			ns := make([]int, g)
+			for t := 0; t < g; t++ {
+				ns[t] = base + t*37 + r.Intn(300)
+			}
+			start := make(chan struct{})
+			for t := 0; t < g; t++ {
+				wg.Add(1)
+				go func(t int) {
+					defer wg.Done()
+					<-start
+					l := kafka.VerifLoadCachedPartitions(ns[t])
+					if len(l) != ns[t] {
+						bad[t] = fmt.Sprintf("LEN:%x:%x", ns[t], len(l))
+						return
+					}
+					for i, v := range l {
+						if v != i {
+							bad[t] = fmt.Sprintf("BAD:%x:%x:%x", ns[t], i, v)
+							return
+						}
+					}
+				}(t)
+			}
+			close(start)
+			wg.Wait()
+			res := "ok"
+			for t := 0; t < g; t++ {
+				if bad[t] != "" {
+					res = bad[t]
+					break
+				}
+			}
+			emit("parts", fmt.Sprintf("%x %x", base, g), res, fmt.Sprintf("growth,g=%d", g))
+			base += 900 + r.Intn(4000)
+			if round%3 == 2 {
+				base *= 2
+			}
+			if base > 3000000 {
+				base = 3000000 + round
+			}
+		}
 	}
 }
